@@ -46,7 +46,10 @@ def run_seed(sid, checks, tier="quick"):
             if os.path.exists(ev):
                 with open(ev) as f:
                     keys = json.load(f)["coverage"].get("unlisted_violations", [])
-            res["runs"][c] = {"exit": q.returncode, "violations": keys[:12], "n_violations": len(keys),
+            rc = q.returncode
+            if rc == 1 and "VIOLATION property=" not in q.stdout:
+                rc = 2          # exit 1 without a VIOLATION line is a crash of the engine, not a verdict
+            res["runs"][c] = {"exit": rc, "violations": keys[:12], "n_violations": len(keys),
                               "broken": [l for l in q.stdout.splitlines() if l.startswith("ANALYSIS-BROKEN")][:2]}
     finally:
         shutil.rmtree(tmp, ignore_errors=True)
